@@ -62,7 +62,9 @@ func buildOptions(cfg *Cfg, mon imonitor.Monitor, sizes map[string]pg.Size, deco
 	// (derived from the configuration, so that a case replays identically)
 	dh := uint64(cfg.P1*5+cfg.P2*11+cfg.P4*23+cfg.P5*47) + uint64(len(cfg.NS))*3 + uint64(len(cfg.LS))*7 + uint64(len(sizes))*13
 	useDefault := func(bit uint) bool { return (dh>>bit)&1 == 1 }
-	if !useDefault(4) {
+	if cfg.P3 == 1 {
+		opts = append(opts, autog.WithOrdering(phase3.NoOrdering))
+	} else if !useDefault(4) {
 		opts = append(opts, autog.WithOrdering(phase3.WMedian))
 	}
 	switch cfg.P1 {
